@@ -285,7 +285,12 @@ pub fn judge_buffer<V: Variant>(bytes: &[u8], form: usize, len: usize, sentinel:
         _ => (V::STRLEN, ref_hex_format(bytes, V::CK, true)),
     };
     // non-uniform sentinel so that shifted writes are visible too
-    let fill = |i: usize| sentinel ^ ((i as u8).wrapping_mul(31) & 0x0f);
+    // three masked constant fills and four ramps that together put every byte value
+    // (letters of both cases, digits, controls, high bytes) somewhere in a 64-byte tail
+    let fill = |i: usize| match sentinel {
+        0x00 | 0xa5 | 0xff => sentinel ^ ((i as u8).wrapping_mul(31) & 0x0f),
+        k => (i as u8).wrapping_add(k),
+    };
     let mut buf: Vec<u8> = (0..len).map(fill).collect();
     let res = catch(|| match form {
         0 => h.store_into_bytes(&mut buf),
